@@ -129,6 +129,10 @@ type VC struct {
 	dryDepth int
 	loopStack []*loopSnap
 	cbVars map[string]*types.Var
+	cbinvV *types.Var
+	frameCache *frameSpec
+	loopWrites map[int]map[string]bool
+	lastWritten map[string]bool
 	owned []Term
 	freshResult map[string]bool
 	nonEscaping map[*types.Var]bool
